@@ -132,6 +132,53 @@ func (v *vm) execSketch() bool {
 		v.sideMap(m)
 		v.ok()
 
+	case "knewc":
+		// the library's convenience constructors: knewc k default|logdense|defaultx a  |  knewc k loglow|loghigh a n  |  knewc k prov|provx a kind
+		v.needRange(4, 5)
+		a := v.f(3)
+		var s *ddsketch.DDSketch
+		var e *ddsketch.DDSketchWithExactSummaryStatistics
+		var err error
+		switch string(t[2]) {
+		case "default":
+			v.need(4)
+			s, err = ddsketch.NewDefaultDDSketch(a)
+		case "logdense":
+			v.need(4)
+			s, err = ddsketch.LogUnboundedDenseDDSketch(a)
+		case "defaultx":
+			v.need(4)
+			e, err = ddsketch.NewDefaultDDSketchWithExactSummaryStatistics(a)
+		case "loglow":
+			v.need(5)
+			s, err = ddsketch.LogCollapsingLowestDenseDDSketch(a, int(v.i64(4)))
+		case "loghigh":
+			v.need(5)
+			s, err = ddsketch.LogCollapsingHighestDenseDDSketch(a, int(v.i64(4)))
+		case "prov", "provx":
+			v.need(5)
+			prov := v.provider(4)
+			var m mapping.IndexMapping
+			m, err = mapping.NewDefaultMapping(a)
+			if err == nil {
+				if string(t[2]) == "prov" {
+					s = ddsketch.NewDDSketchFromStoreProvider(m, prov)
+				} else {
+					e = ddsketch.NewDDSketchWithExactSummaryStatistics(m, prov)
+				}
+			}
+		default:
+			panic(bad("variant"))
+		}
+		if err != nil {
+			v.errClass(classify(err))
+			return true
+		}
+		k := &sk{plain: s, exact: e}
+		v.setK(1, k)
+		v.sideMap(k.mapping())
+		v.ok()
+
 	case "kadd":
 		v.needRange(3, 4)
 		k, val := v.getK(1), v.f(2)
@@ -320,8 +367,13 @@ func (v *vm) execSketch() bool {
 	case "kfromproto":
 		v.need(4)
 		p := v.getKP(2)
-		prov := v.provider(3)
-		s, err := ddsketch.FromProtoWithStoreProvider(p, prov)
+		var s *ddsketch.DDSketch
+		var err error
+		if v.is(3, "default") {
+			s, err = ddsketch.FromProto(p)
+		} else {
+			s, err = ddsketch.FromProtoWithStoreProvider(p, v.provider(3))
+		}
 		if err != nil || s == nil {
 			v.okOrErr(err)
 			return true
